@@ -158,7 +158,9 @@ impl Config {
 }
 
 pub fn toml_value_from_str(string: &str) -> toml::Value {
-    let try_parse = toml::from_str::<toml::Value>(string);
+    use serde::Deserialize;
+    // Parse a single TOML value (`true`, `3`, `"quoted"`): `toml::from_str` expects a whole document and rejects all of these.
+    let try_parse = toml::Value::deserialize(toml::de::ValueDeserializer::new(string));
 
     // If there's an error parsing (because clap will not parse quotes, for example), we just treat what we're passed as a string:
     if let Ok(out) = try_parse {
